@@ -41,7 +41,7 @@ def save_meta(d, m):
 
 
 def do_import(pid):
-    src = f"/tmp/seed-{pid}/_seeded" if os.path.isdir(f"/tmp/seed-{pid}/_seeded") else f"/tmp/seed2-{pid}/_seeded"
+    src = f"/tmp/seed-{pid}/_seeded" if os.path.isdir(f"/tmp/seed-{pid}/_seeded") else (f"/tmp/seed2-{pid}/_seeded" if os.path.isdir(f"/tmp/seed2-{pid}/_seeded") else f"/tmp/seed3-{pid}/_seeded")
     for d in sorted(glob.glob(src + "/*")):
         name = os.path.basename(d)
         dst = os.path.join(SEEDED, name)
